@@ -36,7 +36,7 @@ import traceback
 from mc import core, explorer
 
 NEEDS_BRIDGEPOINT = False
-BUDGET_S = {'quick': 300, 'thorough': 3000}
+BUDGET_S = {'quick': 3600, 'thorough': 14400}
 ASSUMPTIONS = [
     'one fresh xtuml.ModelLoader per enumerated input; build_metamodel is called with xtuml.IntegerGenerator()',
     'texts are python str objects fed to ModelLoader.input (the file routes add only open()/read())',
